@@ -10,7 +10,9 @@ Added in round 4: the REST dimension pre-check looks at every dimension slot bef
 rendered (C16.i).
 Added in round 5: sizes that are not positive are refused (C16.j); the tile limit is given to every
 CacheMapLayer (C16.k); WMTS addresses are validated by the layer of the requested matrix set
-(C16.l)."""
+(C16.l).
+Added in round 6: public order to internal level before the bounds check (C16.m, shared C02.d);
+WMS-C compares with the stored format (C16.n)."""
 import ast
 
 from ..engine import rule
